@@ -529,7 +529,7 @@ theorem poolClose_effC (s t : St) (h : poolClose s = some t) : EffC s t (fun _ =
   · cases h
   · simp only [Option.some.injEq] at h
     subst h
-    refine ((baseClose_effC s).trans (EffC.map (baseClose s) { ((baseClose s).mapCli dropEffect) with poolUp := false }
+    refine ((baseClose_effC s).trans (EffC.map (baseClose s) { ((baseClose s).mapCli dropEffect) with poolUp := false, blocked := [] }
       dropEffect dropEffect_cred dropEffect_phase dropEffect_inst dropEffect_table rfl rfl rfl rfl)).mono
       (fun _ _ => trivial)
 
